@@ -1,7 +1,100 @@
 package main
 
+// Rules that are registered but not implemented yet. A property that still
+// uses one of these is not entered in MANIFEST.json.
+
+var pendingRules = map[string]bool{}
+
+func pending(c *Ctx, name string) {
+	pendingRules[name] = true
+	c.R.Notes = append(c.R.Notes, "rule "+name+" is not implemented yet")
+}
+
 func runSelftest(verif string) int { return 0 }
 
 func runMutants(repo, verif string, pd *propDef, verbose bool) int { return 0 }
 
 func mutantSweep(repo string, pd *propDef) *MutantResult { return nil }
+
+func ruleGate(c *Ctx) { pending(c, "ruleGate") }
+
+func ruleHandshakeTable(c *Ctx) { pending(c, "ruleHandshakeTable") }
+
+func ruleOrderStart(c *Ctx) { pending(c, "ruleOrderStart") }
+
+func ruleVersionNegotiation(c *Ctx) { pending(c, "ruleVersionNegotiation") }
+
+func ruleEnvVersionsOnly(c *Ctx) { pending(c, "ruleEnvVersionsOnly") }
+
+func ruleExit(c *Ctx) { pending(c, "ruleExit") }
+
+func ruleCtx(c *Ctx) { pending(c, "ruleCtx") }
+
+func ruleWG(c *Ctx) { pending(c, "ruleWG") }
+
+func ruleKill(c *Ctx) { pending(c, "ruleKill") }
+
+func ruleSibClose(c *Ctx) { pending(c, "ruleSibClose") }
+
+func ruleClose1(c *Ctx) { pending(c, "ruleClose1") }
+
+func ruleSocketDir(c *Ctx) { pending(c, "ruleSocketDir") }
+
+func ruleIDMux(c *Ctx) { pending(c, "ruleIDMux") }
+
+func ruleSlot(c *Ctx) { pending(c, "ruleSlot") }
+
+func ruleAtomicIDs(c *Ctx) { pending(c, "ruleAtomicIDs") }
+
+func ruleIDGRPC(c *Ctx) { pending(c, "ruleIDGRPC") }
+
+func ruleTLSUse(c *Ctx) { pending(c, "ruleTLSUse") }
+
+func ruleMuxSer(c *Ctx) { pending(c, "ruleMuxSer") }
+
+func ruleIDKnock(c *Ctx) { pending(c, "ruleIDKnock") }
+
+func ruleExpiry(c *Ctx) { pending(c, "ruleExpiry") }
+
+func ruleOrderO4(c *Ctx) { pending(c, "ruleOrderO4") }
+
+func ruleLogLevels(c *Ctx) { pending(c, "ruleLogLevels") }
+
+func ruleStdioWiring(c *Ctx) { pending(c, "ruleStdioWiring") }
+
+func ruleFresh(c *Ctx) { pending(c, "ruleFresh") }
+
+func ruleCopyChan(c *Ctx) { pending(c, "ruleCopyChan") }
+
+func ruleTLSConfig(c *Ctx) { pending(c, "ruleTLSConfig") }
+
+func ruleTLSPools(c *Ctx) { pending(c, "ruleTLSPools") }
+
+func ruleEnvCertOnly(c *Ctx) { pending(c, "ruleEnvCertOnly") }
+
+func ruleSecureOrder(c *Ctx) { pending(c, "ruleSecureOrder") }
+
+func ruleCmp(c *Ctx) { pending(c, "ruleCmp") }
+
+func ruleSentinelSecure(c *Ctx) { pending(c, "ruleSentinelSecure") }
+
+func ruleGateExcl(c *Ctx) { pending(c, "ruleGateExcl") }
+
+func ruleGateProtoMux(c *Ctx) { pending(c, "ruleGateProtoMux") }
+
+func ruleSibDispense(c *Ctx) { pending(c, "ruleSibDispense") }
+
+func ruleSibSwitch(c *Ctx) { pending(c, "ruleSibSwitch") }
+
+func ruleReattach(c *Ctx) { pending(c, "ruleReattach") }
+
+func ruleSentinelReattach(c *Ctx) { pending(c, "ruleSentinelReattach") }
+
+func ruleCookie(c *Ctx) { pending(c, "ruleCookie") }
+
+func ruleOrderServe(c *Ctx) { pending(c, "ruleOrderServe") }
+
+func ruleStdout(c *Ctx) { pending(c, "ruleStdout") }
+
+func ruleStopClosesBroker(c *Ctx) { pending(c, "ruleStopClosesBroker") }
+
